@@ -197,13 +197,14 @@ func (w *World) CheckC01(ctx sdk.Context, l *Ledger, fail func(a, s, d string), 
 		qc, _ := c.CacheContext()
 		sumSpread, sumInc := sdk.NewCoins(), sdk.NewCoins()
 		for _, lp := range l.Pos {
-			cs, err := k.GetClaimableSpreadRewards(qc, lp.ID)
+			var cs, ci sdk.Coins
+			err := core.Try(func() (e error) { cs, e = k.GetClaimableSpreadRewards(qc, lp.ID); return })
 			if err != nil {
 				fail("c01.claimable-spread-query", "", fmt.Sprintf("%s position %d: %v", tag, lp.ID, err))
 				continue
 			}
 			sumSpread = sumSpread.Add(cs...)
-			ci, _, err := k.GetClaimableIncentives(qc, lp.ID)
+			err = core.Try(func() (e error) { ci, _, e = k.GetClaimableIncentives(qc, lp.ID); return })
 			if err != nil {
 				fail("c01.claimable-incentives-query", "", fmt.Sprintf("%s position %d: %v", tag, lp.ID, err))
 				continue
